@@ -18,7 +18,7 @@ from vf import monitors, refmodel, refmsm, stdgeom
 
 LEVEL = "exploration"
 RULE = (
-    "cases: (P) 131 identities with PINNED field-level layouts (names, order, widths, number representation, "
+    "cases: (P) 134 identities with PINNED field-level layouts (names, order, widths, number representation, "
     "resolution; vf.stdlayout): message built from the pinned layout -> identical attributes and values; "
     "(L) identity x count strategy {zero, one, max-that-fits, small, random}: payload of exactly the pinned "
     "standard length with random content -> parse succeeds, bit (len-1) is significant, every pad bit is not, "
